@@ -105,17 +105,16 @@ structure SoundRunner (im : Impl) (r : Runner) : Prop where
   br : ∀ p ∈ r.branches.zip (r.preBranch.map (·.2)),
     SoundBrR im r p.1 p.2 ∧ (p.1.noData = false → ∀ e ∈ p.1.ends, SoundConn im r p.1.src e)
 
-theorem slices_empty {tv : List (Key × List PEdge)} (h : tv.any (fun p => !p.2.isEmpty) = false) (s : Key) :
-    getSlice tv s = [] := by
-  induction tv with
-  | nil => rfl
-  | cons p tv ih =>
-    obtain ⟨k, l⟩ := p
-    simp only [List.any_cons, Bool.or_eq_false_iff] at h
-    simp only [getSlice]
-    split
-    · have := h.1; simpa using this
-    · exact ih h.2
+theorem slices_empty {b : Builder} (h : b.hasPending = false) (s : Key) :
+    getSlice b.toValidate s = [] := by
+  by_cases hk : s ∈ b.toValidate.map (·.1)
+  · obtain ⟨p, hp, rfl⟩ := List.mem_map.mp hk
+    unfold Builder.hasPending at h
+    have := (List.any_eq_false.mp h) p hp
+    simpa using this
+  · rcases hg : getSlice b.toValidate s with _ | ⟨x, xs⟩
+    · rfl
+    · exact absurd (mem_getSlice_key (x := x) (by rw [hg]; exact List.mem_cons_self)) hk
 
 /-- a builder that satisfies the invariant and passes Compile's pre-checks yields a sound runner -/
 theorem mkRunner_sound (im : Impl) (f : Facts) (b : Builder) (o : COpts) (h : Inv im b)
@@ -125,7 +124,8 @@ theorem mkRunner_sound (im : Impl) (f : Facts) (b : Builder) (o : COpts) (h : In
     repeat' split at hp
     all_goals first | (simp at hp; done) | skip
     rename_i htv _ _
-    exact slices_empty (by simpa using htv)
+    intro s
+    exact slices_empty (by simpa using htv) s
   have hconn : ∀ s e, Conn b s e → SoundE im b s e := by
     intro s e hc
     rcases h.c.conn s e (Or.inl hc) with ⟨x, hx, _⟩ | hs
